@@ -179,7 +179,7 @@ func init() {
 	fw.Register(&fw.Check{
 		ID:    "C04",
 		Level: "model_checking",
-		Rule: "every string up to the length bound over a per-tokenizer alphabet with one representative of each character class that selects a different state or look-ahead branch; all seven options off; plus every one of 121 boundary characters (incl. the aliases of 19 syntax characters modulo 2^8 and 2^16; controls incl. NUL, each ASCII class edge, Latin-1, 0xFF/0x100, general punctuation, 0xFFFD..0xFFFF, first astral, U+10FFFF) in every context of up to 2+2 characters, and every pattern of <=3 characters repeated k times for 13 (thorough 24) sizes around powers of two up to 1000 (plus a generic tokenizer configured with the C++ comment state, whose code the built-in tokenizers only partly reach); " +
+		Rule: "Also: the generic and the expression tokenizer configured with symbols of the user's own (one with an unregistered prefix, some starting with the sign) and a whitespace character the dispatch table does not start a whitespace on, every string up to length 4..6 over an 11-character alphabet. every string up to the length bound over a per-tokenizer alphabet with one representative of each character class that selects a different state or look-ahead branch; all seven options off; plus every one of 183 boundary characters (aliases modulo 2^8 and 2^16 and up to four characters of every Unicode general category among them) (incl. the aliases of 19 syntax characters modulo 2^8 and 2^16; controls incl. NUL, each ASCII class edge, Latin-1, 0xFF/0x100, general punctuation, 0xFFFD..0xFFFF, first astral, U+10FFFF) in every context of up to 2+2 characters, and every pattern of <=3 characters repeated k times for 13 (thorough 24) sizes around powers of two up to 1000 (plus a generic tokenizer configured with the C++ comment state, whose code the built-in tokenizers only partly reach); " +
 			"oracle: token values concatenate to the input, tokens non-empty, single trailing Eof, TokenizeBuffer == NextToken loop; non-trivial = input on which some state pushed back at least one character (counted by the scanner wrapper)",
 		Assume: []string{"one representative per character class stands for the class", "termination decided by a deterministic scanner step budget of 64*(len+2)"},
 		Spaces: func(tier string) []fw.Space {
@@ -287,7 +287,7 @@ func init() {
 		},
 		Bounds: func(tier string) string {
 			if tier == "thorough" {
-				return "character sweep: 121 boundary characters in every context of <=2+2 characters; pumped: every pattern of <=3 characters repeated 2..1000 times (24 sizes); generic: len<=6 over 19 chars; expression: len<=6 over 21; csv: len<=8 over 8; mustache: len<=7 over 10"
+				return "character sweep: 183 boundary characters (aliases modulo 2^8 and 2^16 and up to four characters of every Unicode general category among them) in every context of <=2+2 characters; pumped: every pattern of <=3 characters repeated 2..1000 times (24 sizes); generic: len<=6 over 19 chars; expression: len<=6 over 21; csv: len<=8 over 8; mustache: len<=7 over 10"
 			}
 			return "generic/expression: len<=4; csv/mustache: len<=5"
 		},
